@@ -92,6 +92,8 @@ def tokens_to_ast(
                 ):
                     output_queue = operate(operator_stack.pop(), output_queue)
                 if operator_stack and operator_stack[-1].token == starting_token:
+                    if operator_stack[-1].index == len(output_queue):
+                        raise exc_for_token(token, "Context is empty.")
                     operator_stack.pop()
                 else:
                     raise exc_for_token(
